@@ -128,8 +128,10 @@ class MayRaise:
             if not res and isinstance(n.func, ast.Attribute):
                 # obj.attr(...) where obj.attr is a property returning a callable: ignore
                 pass
-            if not res and isinstance(n.func, ast.Name) and n.func.id == "next" and n.args:
-                res = self.prog.methods_named("__next__")
+            if not res and isinstance(n.func, ast.Name) and n.func.id == "next" and n.args \
+                    and isinstance(n.args[0], ast.Attribute) and n.args[0].attr.endswith("lexer"):
+                # next(self._lexer): the only repo iterator driven through next() on a named attribute
+                res = [m for m in self.prog.methods_named("__next__") if m.cls is not None and m.cls.name == "Lexer"]
             out.extend(res)
             # function values passed as arguments may be called by the callee
             for a in list(n.args) + [k.value for k in n.keywords]:
